@@ -55,6 +55,20 @@ Theorem content_preserved_modulo_whitespace :
 Proof. exact send_summary. Qed.
 Print Assumptions content_preserved_modulo_whitespace.
 
+(** What the receiver reconstructs: low-level dequoting of a sent line gives back exactly
+    fmt ++ piece, and -- with the fourth oracle fact, textwrap's whitespace normalisation (pieces
+    contain no CR / LF; checked per case) -- it contains no CR or LF: no CR/LF of the text travels as
+    M_QUOTE 'r' / M_QUOTE 'n' and reappears inside the delivered message. *)
+Theorem reconstructed_parts_have_no_CR_LF :
+  forall (wrap : list N -> Z -> list (list N)),
+  (forall l w p c, In p (wrap l w) -> In c p -> c <> 10 /\ c <> 13) ->
+  forall (w : Z) (fmt message p : list N) (c : N),
+  (forall x, In x fmt -> x <> 10 /\ x <> 13) ->
+  In p (pieces_of wrap w message) ->
+  lowDequote (lowQuote (fmt ++ p)) = fmt ++ p /\ (In c (lowDequote (lowQuote (fmt ++ p))) -> c <> 10 /\ c <> 13).
+Proof. exact reconstructed_clean. Qed.
+Print Assumptions reconstructed_parts_have_no_CR_LF.
+
 (** FULL STATEMENT (false, finding F17): every sent line is at most [limit] OCTETS.
     Proved part: it holds when fmt and the message are plain ASCII (no NUL, CR, DLE; LF allowed
     in the message) ... *)
